@@ -322,6 +322,7 @@ fn triples_years(env: &mut Env, years: std::sync::Arc<Vec<i64>>) {
 
 /// every `stride`-th day of the whole range (phase from the seed): a defect confined to a band of
 /// `stride` or more consecutive days anywhere in the range is met, not only near the boundaries
+#[allow(dead_code)]
 fn days_stride(env: &mut Env, stride: i64) {
     let phase = (env.seed % stride as u64) as i64;
     const CH: i64 = 1 << 16;
@@ -426,10 +427,11 @@ pub fn run(env: &mut Env) {
             days_window(env, lo, hi);
         }
         triples_years(env, std::sync::Arc::new(boundary_years()));
-        // sweeps over the whole domain: every 3rd day, and 48 probe dates in every year
-        days_stride(env, 3);
+        // the whole domain: every day number, and 48 probe dates in every year
+        days_window(env, cal::MIN_DAY, cal::MAX_DAY);
+        env.exhaustive_parts.push("C01.days: all 2^32 day numbers".into());
         triples_every_year(env);
-        env.exhaustive_parts.push("C01 (quick): every 3rd day number of the whole range (phase from the seed) and 48 probe dates (first / 15th / last / last+1 of every month, 28-30 February) in every year -5879612..=5879612".into());
+        env.exhaustive_parts.push("C01 (quick): all 2^32 day numbers and 48 probe dates (first / 15th / last / last+1 of every month, 28-30 February) in every year -5879612..=5879612".into());
         env.run_random::<Days>(1_000_000);
         env.run_random::<Triples>(1_500_000);
     }
